@@ -32,6 +32,13 @@ pub struct BatchOpts {
     pub pre_size: u32,
     /// end_batch + begin_batch again after every n documents (0 = one batch)
     pub rebatch_every: u16,
+    /// the pre-size is only requested from this batch on (earlier batches ask for none), so that the
+    /// log is enlarged on a memory that already holds frames
+    #[serde(default)]
+    pub pre_size_from_batch: u8,
+    /// commit between end_batch and the next begin_batch
+    #[serde(default)]
+    pub commit_between_batches: bool,
 }
 
 #[derive(Debug, Clone, Serialize, Deserialize)]
@@ -117,16 +124,17 @@ fn ingest(c: &Case, p: Path) -> Result<Built, Fail> {
     let dim = c.dim.max(1) as usize;
     let wal0 = crate::hist::wal_size_of(&path);
     let mut skip_commits = 0;
-    let bo = |b: &BatchOpts| {
+    let bo = |b: &BatchOpts, nth: usize| {
         let mut o = PutManyOpts::default();
         o.skip_sync = b.skip_sync;
         o.compression_level = b.level;
         o.disable_auto_checkpoint = b.disable_auto_checkpoint;
-        o.wal_pre_size_bytes = b.pre_size as u64;
+        o.wal_pre_size_bytes = if nth >= b.pre_size_from_batch as usize { b.pre_size as u64 } else { 0 };
         o
     };
+    let mut nth_batch = 0usize;
     if p == Path::Batch {
-        mem.begin_batch(bo(&c.batch)).map_err(|e| api("begin_batch", p, e))?;
+        mem.begin_batch(bo(&c.batch, nth_batch)).map_err(|e| api("begin_batch", p, e))?;
     }
     for (i, d) in c.docs.iter().enumerate() {
         let bytes = payload(i, d);
@@ -145,7 +153,11 @@ fn ingest(c: &Case, p: Path) -> Result<Built, Fail> {
             Path::Batch => {
                 if c.batch.rebatch_every > 0 && (i + 1) % c.batch.rebatch_every as usize == 0 {
                     mem.end_batch().map_err(|e| api("end_batch", p, e))?;
-                    mem.begin_batch(bo(&c.batch)).map_err(|e| api("begin_batch", p, e))?;
+                    if c.batch.commit_between_batches {
+                        mem.commit().map_err(|e| api("commit", p, e))?;
+                    }
+                    nth_batch += 1;
+                    mem.begin_batch(bo(&c.batch, nth_batch)).map_err(|e| api("begin_batch", p, e))?;
                 }
             }
             Path::SkipIndex => {
@@ -249,6 +261,7 @@ pub fn check(c: &Case) -> CheckResult {
         .class_if(skip_commits >= 3, "several_skip_index_commits")
         .class_if(grew, "log_grew")
         .class_if(c.batch.pre_size > 0, "wal_pre_sized")
+        .class_if(c.batch.pre_size > 70_000 && c.batch.pre_size_from_batch > 0 && c.batch.rebatch_every > 0 && (c.docs.len() / c.batch.rebatch_every as usize) >= c.batch.pre_size_from_batch as usize, "log_enlarged_by_a_later_batch")
         .class_if(c.batch.skip_sync, "skip_sync")
         .class_if(!c.batch.disable_auto_checkpoint, "auto_checkpoint_allowed_in_batch")
         .class_if(c.docs.iter().any(|d| d.emb.is_some()), "has_embeddings")
@@ -285,9 +298,21 @@ fn batch_opts() -> impl Strategy<Value = BatchOpts> {
         prop::sample::select(vec![0, 1, 3, 11]),
         prop_oneof![3 => Just(true), 1 => Just(false)],
         prop_oneof![2 => Just(0u32), 1 => 1u32..70_000, 1 => 70_000u32..2_000_000],
-        prop_oneof![2 => Just(0u16), 1 => 1u16..40],
+        prop_oneof![2 => Just(0u16), 2 => 1u16..40],
+        prop_oneof![2 => Just(0u8), 1 => 1u8..4],
+        any::<bool>(),
     )
-        .prop_map(|(skip_sync, level, disable_auto_checkpoint, pre_size, rebatch_every)| BatchOpts { skip_sync, level, disable_auto_checkpoint, pre_size, rebatch_every })
+        .prop_map(|(skip_sync, level, disable_auto_checkpoint, pre_size, rebatch_every, pre_size_from_batch, commit_between_batches)| {
+            let mut b = BatchOpts { skip_sync, level, disable_auto_checkpoint, pre_size, rebatch_every, pre_size_from_batch, commit_between_batches };
+            if b.pre_size_from_batch > 0 {
+                // a later batch enlarges the log of a memory that already holds frames: needs a
+                // pre-size above the current log size and short batches
+                b.pre_size = 70_000 + b.pre_size % 1_500_000;
+                b.rebatch_every = 1 + b.rebatch_every % 6;
+                b.pre_size_from_batch = 1 + b.pre_size_from_batch % 2;
+            }
+            b
+        })
 }
 
 pub fn strategy(max_many: usize) -> impl Strategy<Value = Case> {
@@ -308,7 +333,7 @@ pub fn strategy(max_many: usize) -> impl Strategy<Value = Case> {
 }
 
 pub fn build(ctx: &Ctx) -> Vec<Box<dyn Arm>> {
-    ctx.rule("document sets (1..30 mixed short/chunked/binary/embedded documents, or 350..600 small ones so that the 64 KiB embedded log fills, checkpoints or grows) ingested into three fresh files with identical PutOptions: (a) plain puts (+ optional intermediate commits) + commit, (b) begin_batch(generated skip_sync / compression level 0,1,3,11 / disable_auto_checkpoint / wal_pre_size_bytes, optionally re-batched every n docs) + puts + end_batch + commit, (c) puts with commit_skip_indexes every j documents, then finalize_indexes; optional deletes (by uri) + commit in all three; oracle (differential): logical snapshot of (b) and (c) equals (a) live and after close+reopen: frame table incl. metadata, canonical content and text digests, embeddings, timeline both directions, search results (shared word, markers, vocabulary words; sets of (frame, range, text), sketch off), vector search per frame; non-trivial = >= 350 documents or >= 3 skip-index commits");
+    ctx.rule("document sets (1..30 mixed short/chunked/binary/embedded documents, or 350..600 small ones so that the 64 KiB embedded log fills, checkpoints or grows) ingested into three fresh files with identical PutOptions: (a) plain puts (+ optional intermediate commits) + commit, (b) begin_batch(generated skip_sync / compression level 0,1,3,11 / disable_auto_checkpoint / wal_pre_size_bytes, optionally re-batched every n docs, with an optional commit between batches and the pre-size requested only from the k-th batch on) + puts + end_batch + commit, (c) puts with commit_skip_indexes every j documents, then finalize_indexes; optional deletes (by uri) + commit in all three; oracle (differential): logical snapshot of (b) and (c) equals (a) live and after close+reopen: frame table incl. metadata, canonical content and text digests, embeddings, timeline both directions, search results (shared word, markers, vocabulary words; sets of (frame, range, text), sketch off), vector search per frame; non-trivial = >= 350 documents or >= 3 skip-index commits");
     ctx.assume("stored encoding may differ with the compression level: canonical content is compared, not stored bytes");
     ctx.assume("an API error on the plain path ends the case without a verdict (C01 owns it); an API error on a bulk path for documents the plain path accepted is a violation");
     let t = ctx.tier;
